@@ -318,11 +318,11 @@ func (s *storeRun) rangeOp(a, b uint64) {
 func runStore(o *out, r *rng, thorough bool, pid string) {
 	switch pid {
 	case "C09":
-		o.Rule = "histories of create/open/open-or-create/put{successor,duplicate,gap,stale,wrong delta,wrong cid,bottom,invalid chain,emptying delta}/get/range/power-table/latest/reopen with the check-point frequency lowered to 2..5 so that check-points are crossed densely, replayed on the real certstore (in-memory datastore) and on the Coq model; non-trivial = >=1 accepted put with a non-empty delta and >=1 rejected put or reopen"
+		o.Rule = "histories of create/open/open-or-create/put{successor,duplicate,gap,stale,wrong delta,wrong cid,bottom,invalid chain,emptying delta}/get/range/power-table/latest/reopen with the check-point frequency lowered to 2..5 so that check-points are crossed densely, replayed on the real certstore (in-memory datastore) and on the Coq model; non-trivial = >=1 accepted put with a non-empty delta and >=1 rejected put or reopen; subscribers: Subscribe at any time (also on a non-empty store), readers that lag by any number of puts, close, re-open; every channel read compared with Store/Subscribers.v, a writer blocked longer than 5 s is a violation"
 	case "C10":
 		o.Rule = "for every mutating operation (create, put, wipe) of generated histories EVERY prefix of its datastore write sequence is cut (fault-injecting datastore), then the store is reopened with each open variant and its observables (latest, get, power tables) compared with the model; non-trivial = crash point strictly inside an operation"
 	case "C17":
-		o.Rule = "stores with first instance > 0, evolving tables and lengths crossing check-point boundaries are exported at every end point and imported into an empty datastore (observables compared with the exporter and the model); block-level corruptions (gap, reorder, surplus, header/manifest mismatch, wrong delta incl. compensating pairs) and byte-level truncations must be rejected; non-trivial = store has >=1 non-empty delta"
+		o.Rule = "stores with first instance > 0, evolving tables and lengths crossing check-point boundaries are exported at every end point and imported into an empty datastore (observables compared with the exporter and the model); block-level corruptions (gap, reorder, surplus, header/manifest mismatch, wrong delta incl. compensating pairs) and byte-level truncations must be rejected; non-trivial = store has >=1 non-empty delta; malformed snapshots include a header whose initial table is the genuine one re-ordered or with a duplicated entry against a manifest committing to the genuine table"
 	}
 	if pid == "C09" {
 		longStoreScenario(o, r, thorough)
